@@ -31,6 +31,8 @@ func main() {
 		cmdCheck(os.Args[2:])
 	case "lock":
 		cmdLock(os.Args[2:])
+	case "locals":
+		cmdLocals(os.Args[2:])
 	case "replay":
 		cmdReplay(os.Args[2:])
 	case "selftest":
